@@ -21,6 +21,7 @@ P("C13",
   level_note="Trusted: Coq kernel + vm_compute; the Go harness (engine wrapper, hooks, projection); the hand-written model of "
              "eventdriven.go. The engine contract is the legality condition of histories (checked by the replay on every real run, "
              "proved for the engine model under C01). Checkpoint save/load of the guard is out of scope (C06).",
+  quick_shards=8,
   assumptions=["engine contract (C01): time never decreases, no pending event is skipped, each scheduled event is dispatched once"],
   trusted=["modelled, not verified: modeling/eventdriven.go (ScheduleWakeAt, ScheduleWakeNow, Handle, NotifyRecv, NotifyPortFree)",
            "not modelled: eventdriven_checkpoint.go, the component mutex"],
